@@ -97,6 +97,39 @@ def cys_sweep(case, rng, viol, counts, classes):
     return {"kind": "cys-sweep", "d": case["d"], "axis": case["axis"], "opts": opts}
 
 
+def written_structure(mol, viol, counts, classes):
+    """The protonated structure written by the package's PDB writer (propka.output.write_pdb_for_atoms): read by
+    column, every atom - the added hydrogens included - stands where the program holds it."""
+    import os
+    import propka.output as po
+    from .. import util
+    conf = mol.conformations[mol.conformation_names[0]]
+    path = os.path.join(util.worker_tmp(), "c17_written.pdb")
+    po.write_pdb_for_atoms(conf.atoms, path)
+    with open(path) as fh:
+        lines = [l for l in fh.read().split("\n") if l[:6] in ("ATOM  ", "HETATM")]
+    if len(lines) != len(conf.atoms):
+        viol.append({"cls": "written-structure-differs", "msg": "%d atoms held, %d records written" % (len(conf.atoms), len(lines))})
+        return
+    far = False
+    for l, a in zip(lines, conf.atoms):
+        counts["written_atom_records"] = counts.get("written_atom_records", 0) + 1
+        try:
+            xyz = (float(l[30:38]), float(l[38:46]), float(l[46:54]))
+        except ValueError:
+            xyz = None
+        if min(a.x, a.y, a.z) <= -100.0 and a.element == "H":
+            far = True
+        if not all(-999.9995 < c_ < 9999.9995 for c_ in (a.x, a.y, a.z)):
+            continue            # outside what an 8.3 field can hold (hydrogens of atoms at the edge of the field)
+        if xyz is None or any(abs(u - v) > 0.00051 for u, v in zip(xyz, (a.x, a.y, a.z))):
+            viol.append({"cls": "written-structure-differs", "msg": "atom %s of %s%d (element %s) is held at (%.3f %.3f %.3f) and written as %r" % (
+                a.name, a.res_name, a.res_num, a.element, a.x, a.y, a.z, l[26:54])})
+            return
+    if far:
+        classes.append("written-hydrogen-beyond-minus-100")
+
+
 def run_case(case, tier):
     from .. import motion, obs, pdbio, sources, util
     from ..monitors import protonate_mon
@@ -158,6 +191,20 @@ def run_case(case, tier):
                 out_.append(r)
             recs = out_
             classes.append("pyramidal-sp2-carbons")
+    if case["kind"] == "built" and rng.random() < 0.25:
+        # hetero records in front of the protein (some programs write ions and ligands first): ions whose atom
+        # names are also names of protein atoms when the justification is ignored (CD, CA, HG) among them
+        from .. import fragments
+        first = []
+        for k_ in range(rng.choice((1, 2))):
+            ion = rng.choice(("CD", "CA", "HG", "ZN", "CD", "CA"))
+            frag, _e, _d = fragments.place_near(recs + first, "ion:" + ion, rng, dist_A=rng.choice((4.0, 6.0, 9.0, 15.0)),
+                                                resnum=950 + k_, min_clear_A=2.7)
+            if frag:
+                first += frag
+        if first:
+            recs = first + recs
+            classes.append("ions-written-before-the-protein")
     opts = [case["opt"]] if case["opt"] else []
     rot, trans, tkind, moved = motion.random_pose(rng, recs)
     back_key, inv, tinv = motion.key_mapper(rot, trans)
@@ -165,11 +212,14 @@ def run_case(case, tier):
     desc = sources.describe(recs)
     desc.update({"kind": case["kind"], "file": case.get("file"), "opts": opts, "rot": rot, "trans": trans})
     run0 = obs.run_single(pdbio.dump(recs), opts, with_atoms=True, write_pka=False)
-    runT = obs.run_single(pdbio.dump(moved), opts, with_atoms=True, write_pka=False)
+    runT = obs.run_single(pdbio.dump(moved), opts, with_atoms=True, write_pka=False, keep_mol=True)
     counts["pipeline_runs"] = 2
     if run0.exc or runT.exc:
         classes.append("raised")
         return util.finish(case, viol, counts, classes, False, desc, inconclusive="raised %r %r" % (run0.exc, runT.exc))
+    if runT.mol is not None:
+        written_structure(runT.mol, viol, counts, classes)
+        runT.mol = None
     nh = 0
     nclaims = 0
     twins = False
